@@ -44,6 +44,9 @@ ATAN2 = z3.Function("atan2", RS, RS, RS)
 ASIN = z3.Function("asin", RS, RS)
 ACOS = z3.Function("acos", RS, RS)
 HYP = z3.Function("hypot3", RS, RS, RS, RS)  # hypot(x, y) = hypot3(x, y, 0)
+# integer witnesses of "equal modulo whole turns" in the angle axioms (Skolem functions)
+W_ROTATED = z3.Function("turns.rotated", RS, RS, RS, z3.IntSort())
+W_YAW_ROTATED = z3.Function("turns.yaw_rotated", RS, RS, RS, RS, z3.IntSort())
 
 
 def rz(v):
@@ -156,7 +159,7 @@ def _axioms():
     )
     g.append(("A2.atan2_odd_in_y", fa([y, x], z3.Implies(z3.Or(y != 0, x > 0), ATAN2(-y, x) == -ATAN2(y, x)), [ATAN2(-y, x)])))
     g = ax.setdefault("atan2.scale", [])
-    g.append(("A2.atan2_positively_homogeneous", fa([c, y, x], z3.Implies(c > 0, ATAN2(c * y, c * x) == ATAN2(y, x)))))
+    g.append(("A2.atan2_positively_homogeneous", fa([c, y, x], z3.Implies(c > 0, z3.And(ATAN2(c * y, c * x) == ATAN2(y, x), ATAN2(y / c, x / c) == ATAN2(y, x))))))
     g = ax.setdefault("atan2.polar", [])
     g.append(("A2.atan2_polar_form", fa([h, y, x], z3.Implies(z3.And(h >= 0, h * h == x * x + y * y), z3.And(h * COS(ATAN2(y, x)) == x, h * SIN(ATAN2(y, x)) == y)))))
     g = ax.setdefault("trig.shift", [])
@@ -166,7 +169,7 @@ def _axioms():
     g.append(("A2.angle_sum", fa([a, b], z3.And(SIN(a + b) == SIN(a) * COS(b) + COS(a) * SIN(b), COS(a + b) == COS(a) * COS(b) - SIN(a) * SIN(b)))))
     g = ax.setdefault("atan2.rotate", [])
     # "equal modulo whole turns" is stated with an integer-valued witness function (ToInt-based statements make LIRA diverge, DESIGN 2.4)
-    W1 = z3.Function("turns.rotated", RS, RS, RS, z3.IntSort())
+    W1 = W_ROTATED
     g.append(
         (
             "A2.atan2_of_rotated_vector",
@@ -181,7 +184,7 @@ def _axioms():
     )
     g = ax.setdefault("atan2.yaw", [])
     ya, xa = AP[1](EULER(a, 0, 0), x, y, z), AP[0](EULER(a, 0, 0), x, y, z)
-    W2 = z3.Function("turns.yaw_rotated", RS, RS, RS, RS, z3.IntSort())
+    W2 = W_YAW_ROTATED
     g.append(
         (
             "A2.yaw_rotation_adds_to_the_azimuth",
@@ -198,9 +201,11 @@ def _axioms():
     )
     g = ax.setdefault("hypot", [])
     g.append(("A1.hypot_is_the_nonnegative_root_of_the_sum_of_squares", fa([x, y, z], z3.And(HYP(x, y, z) >= 0, HYP(x, y, z) * HYP(x, y, z) == x * x + y * y + z * z), [HYP(x, y, z)])))
+    g.append(("A1.hypot_is_zero_only_for_the_zero_vector", fa([x, y, z], (HYP(x, y, z) == 0) == z3.And(x == 0, y == 0, z == 0), [HYP(x, y, z)])))
     g = ax.setdefault("asin", [])
     g.append(("A2.asin_of_unit_vector_height", fa([z, h], z3.Implies(z3.And(h >= 0, h * h + z * z == 1), ASIN(z) == ATAN2(z, h)))))
     g.append(("A2.asin_range", fa([z], z3.And(-HALF_PI <= ASIN(z), ASIN(z) <= HALF_PI), [ASIN(z)])))
+    g.append(("A2.asin_of_normalised_height_is_the_elevation", fa([c, x, y, z], z3.Implies(z3.And(c > 0, c * c == x * x + y * y + z * z), ASIN(z / c) == ATAN2(z, HYP(x, y, 0))))))
     return ax
 
 
@@ -288,8 +293,9 @@ def _elementwise(I, sym, a, b):
     def one(x, y):
         if op == "/" and not I.in_spec:
             if I.decide(compare("==", y, 0)):
-                # numpy: division by zero yields inf/nan with a warning, not an exception; nan is outside A1
-                raise PyvcError("numpy division by zero (nan/inf) is outside the float model A1: exclude it with a precondition")
+                # numpy: division by zero yields inf/nan with a warning, not an exception; nan is outside the float model A1:
+                # modelled as an exception, so that the contract has to show the case excluded by its precondition
+                I.raise_("FloatingPointError", "numpy division by zero (nan/inf is outside the float model A1)")
         return arith(op, x, y)
 
     if isinstance(a, NdArr) and isinstance(b, NdArr):
@@ -442,9 +448,9 @@ def m_atan2(I, y, x):
     return sv(ATAN2(rz(y), rz(x)))
 
 
-def m_asin(I, x):
+def m_asin(I, x, numpy=False):
     use(I.eng, "asin", "atan2")
-    if not I.in_spec and isinstance(x, SV):
+    if not numpy and not I.in_spec and isinstance(x, SV):  # numpy.arcsin never raises (nan outside [-1, 1])
         if I.decide(sv_and(compare("<=", -1, x), compare("<=", x, 1))) is False:
             I.raise_("ValueError", "math domain error")
     return sv(ASIN(rz(x)))
@@ -522,7 +528,7 @@ def _numpy_module(I):
             "asarray": BuiltinFn("numpy.asarray", np_array),
             "linalg": linalg,
             "arctan2": BuiltinFn("numpy.arctan2", lambda y, x: m_atan2(I, y, x)),
-            "arcsin": BuiltinFn("numpy.arcsin", lambda x: m_asin(I, x)),
+            "arcsin": BuiltinFn("numpy.arcsin", lambda x: m_asin(I, x, numpy=True)),
             "mod": BuiltinFn("numpy.mod", np_mod),
             "array_equal": BuiltinFn("numpy.array_equal", np_array_equal),
             "dot": BuiltinFn("numpy.dot", np_dot),
